@@ -490,8 +490,16 @@ func (eng *Engine) evalInit(p *ssa.Package) {
 		}
 		pt := g.Type().(*types.Pointer).Elem()
 		switch {
+		case isBigIntPtr(pt) && eng.constBig[v] != nil:
+			// initialised with another package's constant: the same object
+			gi.known = true
+			gi.term = v
+			gi.bigval = eng.constBig[v]
 		case isBigIntPtr(pt):
 			bv := Select(fc.get(exit, "big", bigSort), v)
+			if os.Getenv("GOVC_DEBUG") != "" && !(bv.IsLit() && bv.val != nil) {
+				fmt.Fprintf(os.Stderr, "evalInit %s.%s: ref %s value %s\n", p.Pkg.Path(), g.Name(), v.Short(), bv.Short())
+			}
 			if bv.IsLit() && bv.val != nil && v != NilRef {
 				gi.known = true
 				// globals holding the same pointer share one constant; different allocations differ
